@@ -479,90 +479,103 @@ def omits : Codec → GoVal → Bool
 
 def encLen (bs : Bytes) : Bytes := writeVarint bs.length ++ bs
 
-mutual
-/-- `Codec.Write(w, p)`; `none` = the Go code panics or reads through a pointer of the wrong shape -/
-def write : Codec → GoVal → Option Bytes
-  | .null, _ => some []
-  | .bool _, .bool b => some (writeBool b)
-  | .int _ _, .int v => some (writeVarint v)
-  | .float _, .f32 b => some (putLE 4 b)
-  | .double _, .f64 b => some (putLE 8 b)
-  | .f32double _, .f32 b => some (putLE 8 (env.widen b))
-  | .bytes _, .bytes bs => some (encLen bs)
-  | .string _, .str bs => some (encLen bs)
-  | .fixed _, .fixed bs => some bs
-  | .array item _, .slice items =>
-    if items.isEmpty then some (writeVarint 0) else
-    match writeItems item items with
-    | some body => some (writeVarint items.length ++ body ++ writeVarint 0)
-    | none => none
-  | .map val _, .map _ ks vs =>
-    if ks.isEmpty then some (writeVarint 0) else
-    match writeEntries val ks vs with
-    | some body => some (writeVarint ks.length ++ body ++ writeVarint 0)
-    | none => none
-  | .pointer c, .ptr none =>
-    -- nil outside a union: slices and maps are written as empty, anything else writes nothing
-    match c with
-    | .array _ _ | .map _ _ => some (writeVarint 0)
-    | _ => some []
-  | .pointer c, .ptr (some x) => write c x
-  | .record _ codecs targets, .struct fs => writeFields codecs targets fs
-  | .union _, _ => none      -- `unionCodec.Write` panics by design
-  | .unionOne c nonNull, v =>
-    if omits env c v then some (writeVarint (1 - (nonNull : Int)))
-    else match write c v with
-      | some b => some (writeVarint nonNull ++ b)
-      | none => none
-  | .unionNullString o nonNull, .str bs =>
-    if o && bs.isEmpty then some (writeVarint (1 - (nonNull : Int)))
-    else some (writeVarint nonNull ++ encLen bs)
-  | .timeString, .time t => some (encLen (env.fmtTime t))
-  | .timeLong mult, .time t =>
-    let nanos : Int := t.unix * 1000000000 + t.nsec
-    let l : Int := if mult = 1 then wrap64 nanos
-      else if mult = 1000000 then Int.fdiv nanos 1000000
-      else Int.fdiv nanos 1000
-    some (writeVarint l)
-  | .date, .time t => some (writeVarint (Int.fdiv t.unix 86400))
-  | .nullw k, .nullw _ inner =>
-    match k, inner with
-    | .int, .int v => some (writeVarint v)
-    | .bool, .bool b => some (writeBool b)
-    | .double, .f64 b => some (putLE 8 b)
-    | .float, .f64 b => some (putLE 4 (env.narrow b))
-    | .string, .str bs => some (encLen bs)
-    | .time, .time t => some (encLen (env.fmtTime t))
-    | _, _ => none
-  | .custom id, v => some ((env.custom id).write v)
-  | _, _ => none
+/-- the codec behind any number of pointer indirections (`PointerCodec.Write` looks through them
+when the outer pointer is nil) -/
+def Codec.stripPtr : Codec → Codec
+  | .pointer c => Codec.stripPtr c
+  | c => c
 
-def writeItems : Codec → List GoVal → Option Bytes
-  | _, [] => some []
-  | c, v :: vs =>
-    match write c v, writeItems c vs with
+mutual
+/-- `Codec.Write(w, p)`; `none` = the Go code panics or reads through a pointer of the wrong shape
+(or the step budget ran out). -/
+def write : Nat → Codec → GoVal → Option Bytes
+  | 0, _, _ => none
+  | fuel + 1, c, g =>
+    match c, g with
+    | .null, _ => some []
+    | .bool _, .bool b => some (writeBool b)
+    | .int _ _, .int v => some (writeVarint v)
+    | .float _, .f32 b => some (putLE 4 b)
+    | .double _, .f64 b => some (putLE 8 b)
+    | .f32double _, .f32 b => some (putLE 8 (env.widen b))
+    | .bytes _, .bytes bs => some (encLen bs)
+    | .string _, .str bs => some (encLen bs)
+    | .fixed _, .fixed bs => some bs
+    | .array item _, .slice items =>
+      if items.isEmpty then some (writeVarint 0) else
+      match writeItems fuel item items with
+      | some body => some (writeVarint items.length ++ body ++ writeVarint 0)
+      | none => none
+    | .map val _, .map _ ks vs =>
+      if ks.isEmpty then some (writeVarint 0) else
+      match writeEntries fuel val ks vs with
+      | some body => some (writeVarint ks.length ++ body ++ writeVarint 0)
+      | none => none
+    | .pointer c', .ptr none =>
+      -- nil outside a union: slices and maps are written as empty, anything else writes nothing
+      match Codec.stripPtr c' with
+      | .array _ _ | .map _ _ => some (writeVarint 0)
+      | _ => some []
+    | .pointer c', .ptr (some x) => write fuel c' x
+    | .record _ codecs targets, .struct fs => writeFields fuel codecs targets fs
+    | .union _, _ => none      -- `unionCodec.Write` panics by design
+    | .unionOne c' nonNull, v =>
+      if omits env c' v then some (writeVarint (1 - (nonNull : Int)))
+      else match write fuel c' v with
+        | some b => some (writeVarint nonNull ++ b)
+        | none => none
+    | .unionNullString o nonNull, .str bs =>
+      if o && bs.isEmpty then some (writeVarint (1 - (nonNull : Int)))
+      else some (writeVarint nonNull ++ encLen bs)
+    | .timeString, .time t => some (encLen (env.fmtTime t))
+    | .timeLong mult, .time t =>
+      let nanos : Int := t.unix * 1000000000 + t.nsec
+      let l : Int := if mult = 1 then wrap64 nanos
+        else if mult = 1000000 then Int.fdiv nanos 1000000
+        else Int.fdiv nanos 1000
+      some (writeVarint l)
+    | .date, .time t => some (writeVarint (Int.fdiv t.unix 86400))
+    | .nullw k, .nullw _ inner =>
+      match k, inner with
+      | .int, .int v => some (writeVarint v)
+      | .bool, .bool b => some (writeBool b)
+      | .double, .f64 b => some (putLE 8 b)
+      | .float, .f64 b => some (putLE 4 (env.narrow b))
+      | .string, .str bs => some (encLen bs)
+      | .time, .time t => some (encLen (env.fmtTime t))
+      | _, _ => none
+    | .custom id, v => some ((env.custom id).write v)
+    | _, _ => none
+
+def writeItems : Nat → Codec → List GoVal → Option Bytes
+  | 0, _, _ => none
+  | _ + 1, _, [] => some []
+  | fuel + 1, c, v :: vs =>
+    match write fuel c v, writeItems fuel c vs with
     | some a, some b => some (a ++ b)
     | _, _ => none
 
-def writeEntries : Codec → List Bytes → List GoVal → Option Bytes
-  | _, [], [] => some []
-  | c, k :: ks, v :: vs =>
-    match write c v, writeEntries c ks vs with
+def writeEntries : Nat → Codec → List Bytes → List GoVal → Option Bytes
+  | 0, _, _, _ => none
+  | _ + 1, _, [], [] => some []
+  | fuel + 1, c, k :: ks, v :: vs =>
+    match write fuel c v, writeEntries fuel c ks vs with
     | some a, some b => some (encLen k ++ a ++ b)
     | _, _ => none
-  | _, _, _ => none
+  | _ + 1, _, _, _ => none
 
 /-- `recordCodec.Write`: a field without a target would be read from `p + MaxUint64` -/
-def writeFields : List Codec → List (Option Nat) → List GoVal → Option Bytes
-  | [], _, _ => some []
-  | c :: cs, some i :: ts, fs =>
+def writeFields : Nat → List Codec → List (Option Nat) → List GoVal → Option Bytes
+  | 0, _, _, _ => none
+  | _ + 1, [], _, _ => some []
+  | fuel + 1, c :: cs, some i :: ts, fs =>
     match fs[i]? with
     | none => none
     | some v =>
-      match write c v, writeFields cs ts fs with
+      match write fuel c v, writeFields fuel cs ts fs with
       | some a, some b => some (a ++ b)
       | _, _ => none
-  | _ :: _, _, _ => none
+  | _ + 1, _ :: _, _, _ => none
 end
 
 end
